@@ -46,7 +46,8 @@ Definition tk1 (c : cur) : cur := mkcur (pre c) (tokrev c) (rest c) (S (ticks c)
 
 Definition cur_new (buf : list N) : cur := mkcur 0 [] buf 0 0.
 Definition apos (c : cur) : nat := length (tokrev c) + pre c.
-Definition pos : P nat := fun c => Done (apos c) c.
+Definition pos : P nat := fun c => Done (length (tokrev c)) c.
+Definition addr : P nat := fun c => Done (apos c) c.
 
 Definition tick (n : nat) : P unit := fun c =>
   Done tt (mkcur (pre c) (tokrev c) (rest c) (n + ticks c) (travel c)).
